@@ -9,6 +9,7 @@ what makes an accepting run evidence for the property rather than for the checke
 That `WF` holds after EVERY history and crash is decided by running the checker on the images
 of sampled histories (labelled PARTIAL): the block-level operations are not modelled.
 -/
+import GoNfsd.Lemmas.MultiTree
 import GoNfsd.Gen.Skeleton
 import GoNfsd.Lemmas.InodeTable
 import GoNfsd.Props.C10
@@ -438,6 +439,37 @@ theorem one_owner_after_any_mapping_sequence (allocs bns : List Nat)
       (GoNfsd.Model.BlockMap.bmapAll { st := GoNfsd.Model.BlockMap.emptyStore, allocs := allocs } (List.replicate (NDIRECT + 2) 0) bns).1
       (GoNfsd.Model.BlockMap.bmapAll { st := GoNfsd.Model.BlockMap.emptyStore, allocs := allocs } (List.replicate (NDIRECT + 2) 0) bns).2 :=
   GoNfsd.Model.BlockMap.bmapAll_wf _ _ bns (GoNfsd.Model.BlockMap.WFB_empty allocs hd) hb
+
+/-- NO BLOCK HAS TWO OWNERS, ACROSS FILES: any number of files (pointer trees) over one store of index
+    blocks and one allocator; after ANY sequence of mappings of addressable blocks of ANY of the files
+    — whatever the allocator hands out, provided it hands out no block twice — no disk block is
+    pointed to from two positions, of one file or of two: data blocks, indirect blocks,
+    double-indirect roots and middle blocks alike; and what the allocator still holds is used by no
+    file.  (One step: `mbmap_ok`, which also shows that no pointer of any OTHER file moves.) -/
+theorem one_owner_across_files_after_any_mapping_sequence (allocs : List Nat)
+    (hd : GoNfsd.Model.BlockMap.DistinctNZ allocs) (ops : List (Nat × Nat))
+    (hb : ∀ op ∈ ops, op.2 < NDIRECT + NBLKBLK + NBLKBLK * NBLKBLK) :
+    GoNfsd.Model.BlockMap.MWF
+      (ops.foldl GoNfsd.Model.BlockMap.mstep ({ st := GoNfsd.Model.BlockMap.emptyStore, allocs := allocs }, fun _ => List.replicate (NDIRECT + 2) 0)).1
+      (ops.foldl GoNfsd.Model.BlockMap.mstep ({ st := GoNfsd.Model.BlockMap.emptyStore, allocs := allocs }, fun _ => List.replicate (NDIRECT + 2) 0)).2 :=
+  GoNfsd.Model.BlockMap.mrun_wf ops _ (GoNfsd.Model.BlockMap.MWF_empty allocs hd) hb
+
+/-- ... and mapping a block of one file moves no pointer of any other file. -/
+theorem mapping_in_one_file_moves_no_pointer_of_another (s : GoNfsd.Model.BlockMap.S) (roots : Nat → List Nat)
+    (a bn : Nat) (h : GoNfsd.Model.BlockMap.MWF s roots) (hbn : bn < NDIRECT + NBLKBLK + NBLKBLK * NBLKBLK)
+    (b : Nat) (hb : b ≠ a) (q : GoNfsd.Model.BlockMap.Pos) (hq : q.valid) :
+    GoNfsd.Model.BlockMap.ptr (GoNfsd.Model.BlockMap.bmap s (roots a) bn).1.st (roots b) q =
+      GoNfsd.Model.BlockMap.ptr s.st (roots b) q :=
+  (GoNfsd.Model.BlockMap.mbmap_ok s roots a bn h hbn).2 b hb q hq
+
+/-- Non-vacuity: two files take turns at the allocator (direct, indirect and double-indirect blocks):
+    all pointers differ. -/
+example :
+    let r := [(1, 3), (2, 3), (1, 8 + 5), (2, 8 + 5), (2, 8 + 512 + 7), (1, 8 + 512 + 7)].foldl GoNfsd.Model.BlockMap.mstep
+      ({ st := GoNfsd.Model.BlockMap.emptyStore, allocs := [100, 101, 102, 103, 104, 105, 106, 107, 108, 109, 110, 111, 112, 113] },
+        fun _ => List.replicate (NDIRECT + 2) 0)
+    (r.2 1, r.2 2, r.1.allocs) = ([0, 0, 0, 100, 0, 0, 0, 0, 102, 109], [0, 0, 0, 101, 0, 0, 0, 0, 104, 106], [112, 113]) := by
+  decide
 
 /-- Non-vacuity: mapping a direct, an indirect and two double-indirect blocks from the empty file
     with an allocator that runs dry in between builds a three-level tree. -/
